@@ -183,7 +183,9 @@ fn run_shard(suite: &str, tier: Tier, seed: u64, shard: usize, nshards: usize, o
 }
 
 fn main() {
-    std::panic::set_hook(Box::new(|_| {}));
+    if std::env::var("HARNESS_VERBOSE_PANIC").is_err() {
+        std::panic::set_hook(Box::new(|_| {}));
+    }
     let args: Vec<String> = std::env::args().collect();
     if args.len() >= 3 && args[1] == "replay" {
         suites::replay(&args[2]);
